@@ -36,8 +36,70 @@ func fiveByte(v uint32) [][]byte {
 	return out
 }
 
+// c09Giant: the faults of (a)-(d) at the END of a property section that holds
+// more than 2^20 user properties (a decoder that stops validating - or stops
+// parsing - after "enough" properties accepts what follows them).
+func c09Giant(c *sim.Ctx) *sim.Violation {
+	t := c.T
+	n := 1<<20 + 1 + t.Int(64)
+	typ := []byte{ref.ConnAck, ref.Disconnect, ref.PubAck, ref.Auth}[t.Int(4)]
+	// header of the packet up to the property length, then n empty user properties
+	var pre []byte
+	switch typ {
+	case ref.ConnAck:
+		pre = []byte{0x00, 0x00}
+	case ref.PubAck:
+		pre = []byte{0x00, 0x07, 0x00}
+	default:
+		pre = []byte{0x00}
+	}
+	ups := make([]byte, 0, 5*n+16)
+	for i := 0; i < n; i++ {
+		ups = append(ups, 0x26, 0x00, 0x01, byte('a'+i%26), 0x00, 0x00)
+	}
+	tails := []struct {
+		clause, what string
+		b            []byte
+	}{
+		{"d", "0xff", []byte{0xFF, 0x00}},                       // undefined identifier
+		{"d", "0x00", []byte{0x00, 0x00}},                       // undefined identifier 0
+		{"a", "str", []byte{0x1F, 0x00, 0x05, 'a', 'b'}},        // reason string cut inside its body
+		{"a", "prop-id|value", []byte{0x1F}},                    // lone identifier
+		{"a", "str", []byte{0x26, 0x00, 0x01, 'k', 0x00}},       // user property cut inside the value's length prefix
+		{"b", "SubscriptionIdentifier", []byte{0x0B, 0x80, 0x80, 0x80, 0x80, 0x01}}, // over-long variable byte integer
+	}
+	if typ == ref.ConnAck {
+		tails = append(tails, struct {
+			clause, what string
+			b            []byte
+		}{"c", "RetainAvailable", []byte{0x25, 0x02}}) // boolean property of 2
+	}
+	for _, tl := range tails {
+		props := append(append([]byte{}, ups...), tl.b...)
+		body := append(append([]byte{}, pre...), ref.AppendVarint(nil, uint32(len(props)))...)
+		body = append(body, props...)
+		frame := append(ref.AppendVarint([]byte{typ<<4 | ref.ReservedFlags(typ)}, uint32(len(body))), body...)
+		o := c09Deliver(c, frame)
+		c.Ev("judge-giant", int64(len(frame)), int64(len(o.Kind)), 0)
+		if o.Kind != "error" {
+			k := "accepted"
+			if o.Kind == "panic" {
+				k = "panic:" + o.Pan.Site
+			}
+			return sim.V(fmt.Sprintf("C09/%s/%s/%s/after-more-than-2^20-user-properties/%s", tl.clause, typeName(typ), tl.what, k),
+				"(%s) %s frame of %d bytes: %d empty user properties followed by % x inside the property section -> %s", tl.clause, typeName(typ), len(frame), n, tl.b, oneOutcome(o))
+		}
+		c.Count("fault." + tl.clause + ".after-more-than-2^20-user-properties")
+	}
+	c.DistinctStr(fmt.Sprintf("giant/%d/%d", typ, n))
+	return nil
+}
+
 func runC09(c *sim.Ctx) *sim.Violation {
 	t := c.T
+	if c.Run == 3 || (c.Thorough && c.Run > 3 && c.Run%5000 == 3) {
+		return c09Giant(c)
+	}
 	cfg := specCfg(c)
 	cfg.NoHuge = true
 	a := gen.Packet(t, cfg)
